@@ -23,10 +23,19 @@ def run(ck: Checker):
     cls = ck.repo.cls(CONTEXT, 'SpawnProcess')
     # ------------------------------------------------------------------ C20-1
     n1 = 0
+    # parameters of functions that are run as threads are bound through their spawn sites
+    from mpsa.match import binding_names
+
+    spawn_bind = {}
+    for owner in cls.methods():
+        osc = Scope(owner)
+        for sp in spawn_sites(owner):
+            if sp.target is not None:
+                spawn_bind.setdefault(sp.target.key, {}).update(binding_names(sp, osc))
     for f in cls.methods():
         if f.name in ('_finalize',):
             continue  # object finaliser: the process object is going away
-        sc = Scope(f)
+        sc = Scope(f, spawn_bind.get(f.key))
         puts = [n for n in walk_shallow_func(f.node) if isinstance(n, ast.Call) and method_of(n)[1] == 'put' and method_of(n)[0] is not None and sc.canon(method_of(n)[0]) == LOGQ and n.args and is_none(n.args[0])]
         if not puts:
             continue
@@ -44,7 +53,7 @@ def run(ck: Checker):
                 dead[n.id] = 'F' if isinstance(n.ast.ops[0], ast.Is) else 'T'
         joins = {n.id for n in cfg.nodes if header_expr(n) is not None and any(method_of(c)[1] == 'join' and isinstance(method_of(c)[0], ast.Call) and dotted(method_of(c)[0].func) == 'super' and not c.args and not c.keywords for c in calls_in(header_expr(n)))}
         # an untimed wait on the process sentinel (readable exactly when the child has exited) observes it dead too
-        joins |= {n.id for n in cfg.nodes if header_expr(n) is not None and any((dotted(c.func) or '').endswith('connection.wait') and len(c.args) == 1 and not c.keywords and 'self.sentinel' in norm_text(c.args[0]) for c in calls_in(header_expr(n)))}
+        joins |= {n.id for n in cfg.nodes if header_expr(n) is not None and any((dotted(c.func) or '').endswith('connection.wait') and len(c.args) == 1 and not c.keywords and isinstance(c.args[0], (ast.List, ast.Tuple)) and len(c.args[0].elts) == 1 and sc.canon(c.args[0].elts[0]) == 'self.sentinel' for c in calls_in(header_expr(n)))}
         for p_ in pn:
             n1 += 1
             path = path_avoiding(cfg, [cfg.entry], {p_.id}, avoid=joins, edge_ok=lambda e: not (e.src in dead and e.kind == dead[e.src]))
